@@ -518,8 +518,7 @@ Proof. vm_compute. repeat split; reflexivity. Qed.
    before, or consumes -- as a declared or remembered amended input -- an edited source or an output
    with CHANGED content of another executed step, or tracks a changed variable, or one of its
    remembered amended inputs is not available when it gets its turn.
-   _partial: the hypothesis K_a is not discharged for all histories of the gated engine
-   (NoopExec.C04_exec_cone_amend_full states that; C01 proves the invariant for the ungated one). *)
+   _partial: from ANY state with K_a; C04_exec_cone_amend_full below discharges K_a for all histories. *)
 Theorem C04_exec_cone_amend_partial :
   forall (run : N -> list (option N) -> list (option N) -> N -> N)
          (amend : N -> list (option N) -> list N)
@@ -531,6 +530,22 @@ Theorem C04_exec_cone_amend_partial :
     NoopExec.exec_cause_a run amend fails proj y (Engine.resync_a proj y w)
                           (Engine.build_world_a run amend fails true proj w y) s.
 Proof. exact NoopExecProofs.exec_cone_amend. Qed.
+
+(* ... and for ALL histories of worlds (sources and variables changed arbitrarily between builds) from an
+   empty .stepup, for every project that is well formed with its amended edges (wf_a), every amend
+   behaviour and every failure behaviour: the hypothesis K_a is an invariant.  (A dispatch decision of
+   the gated engine is nothing or the decision of the ungated engine, for which C01 proves InvA.) *)
+Theorem C04_exec_cone_amend_full :
+  forall (run : N -> list (option N) -> list (option N) -> N -> N)
+         (amend : N -> list (option N) -> list N)
+         (fails : N -> list (option N) -> list (option N) -> bool)
+         (proj : Engine.project) (ws : list Engine.world) (w : Engine.world) (s : Engine.step),
+    Engine.wf_a amend proj -> In s proj ->
+    let y := fold_left (fun y x => Engine.build_world_a run amend fails true proj x y) ws Engine.empty_asys in
+    NoopExec.a_ran run amend fails proj (Engine.resync_a proj y w) (Engine.sid s) ->
+    NoopExec.exec_cause_a run amend fails proj y (Engine.resync_a proj y w)
+                          (Engine.build_world_a run amend fails true proj w y) s.
+Proof. exact NoopExecProofs.exec_cone_amend_full. Qed.
 
 (* p28 of C01: step 2 amends the output 10 of step 1 when its declared input 2 has content 5.  After
    a build, editing the source 3 of step 1 executes 1 and then 2 (its remembered amended input
@@ -545,3 +560,26 @@ Example C04_exec_cone_amend_example :
   Engine.a_build_log Engine.mix_run am Engine.no_fail true p p (Engine.resync_a p y w1) = [(1, true); (2, true)] /\
   Engine.a_build_log Engine.mix_run am Engine.no_fail true p p (Engine.resync_a p y w0) = [].
 Proof. vm_compute. repeat split; reflexivity. Qed.
+
+(* ALL SCHEDULES of the rebuild: the dispatch decisions are taken in the order of an arbitrary list
+   [sched] of steps of the plan (any order, any repetitions, any subset: a step that is not ready at
+   its turn gets another one later); the statement of C04_exec_cone_replan holds for the steps that
+   this schedule executes, with the final state of this schedule. *)
+Theorem C04_exec_cone_all_schedules :
+  forall (run : N -> list (option N) -> list (option N) -> N -> N)
+         (P P' sched : Engine.project) (y : Engine.sys) (w : Engine.world) (s : Engine.step),
+    Engine.wf P' = true -> Engine.Pre run P y -> In s P' -> (forall q, In q sched -> In q P') ->
+    let y1 := Engine.resync P' (Engine.retarget P P' y) w in
+    NoopExec.ran_s run P' sched y1 (Engine.sid s) ->
+    Engine.kept P P' (Engine.sid s) = false \/
+    NoopExec.exec_cause_s run P' sched y y1 (Engine.build_from run P' sched y1) s.
+Proof. exact NoopExecProofs.exec_cone_schedules. Qed.
+
+(* the absorbed chain under a schedule that is not topological and repeats steps: C and B are not
+   ready at their first turn, A runs, B and C are checked and skipped at their second turn *)
+Example C04_exec_cone_schedule_example :
+  let st := Engine.run_dyn xa_const [(xa_proj, xa_w 1 None)] in
+  let y1 := Engine.resync xa_proj (Engine.retarget (fst st) xa_proj (snd st)) (xa_w 2 None) in
+  Engine.build_log xa_const xa_proj [xa_C; xa_B; xa_A; xa_B; xa_A; xa_C; xa_C] y1
+  = [(1, true); (2, false); (3, false)].
+Proof. vm_compute. reflexivity. Qed.
